@@ -1363,7 +1363,8 @@ def shortest_int(data: np.ndarray, percent: float=50) -> tuple[float, float]:
         data = np.sort(data)
         lag = int(len(data) * percent/100)
         diff = diff_lag(data, lag)
-        i = np.where(np.abs(diff - np.min(diff)) < 1e-10)[0]
+        tol = 1e-10*(data[-1] - data[0]) # ties are judged relative to the data range, so the result does not depend on the units
+        i = np.where(np.abs(diff - np.min(diff)) <= tol)[0]
         if len(i) > 1:
             i = int(np.mean(i))
         return np.array((data[i], data[i + lag]))
